@@ -13,12 +13,11 @@ abbrev Str := List Char
 
 /-! ## whitespace -/
 
-/-- the code points matched by `Patterns.whitespaces = re.compile(r'[^\S\xa0]+')` (helpers.py:120):
-Python's Unicode `\s` minus U+00A0.  The live regex is enumerated by the translator into
-`EPV.Gen.C10.whitespaceCPs`; `EPV.C10.whitespace_table` proves the two lists equal. -/
-def pyWhiteCPs : List Nat :=
-  [9, 10, 11, 12, 13, 28, 29, 30, 31, 32, 133, 5760, 8192, 8193, 8194, 8195, 8196, 8197, 8198, 8199,
-   8200, 8201, 8202, 8232, 8233, 8239, 8287, 12288]
+/-- the code points matched by `Patterns.whitespaces = re.compile(r'[ \t\n\r]+')` (helpers.py:120, fix-c10-2:
+XML white space only; before the fix it was Python's Unicode `\s` minus U+00A0).  The live regex is
+enumerated by the translator into `EPV.Gen.C10.whitespaceCPs`; `EPV.C10.whitespace_table` proves the two
+lists equal. -/
+def pyWhiteCPs : List Nat := [9, 10, 13, 32]
 
 def isPyWhite (c : Char) : Bool := pyWhiteCPs.contains c.toNat
 
@@ -227,16 +226,18 @@ def intCtor (b : Bounds) (s : Str) : Except Err Int :=
     if b.ok v then .ok v else .error .value
   else .error .value
 
-/-- numeric.py (fix-c10) `Integer.validate` on a `str`: raw pattern match, then `cls(value)` -/
+/-- numeric.py (fix-c10, fix-c10-2) `Integer.validate` on a `str`: the pattern on the collapsed string,
+then `cls(value)` -/
 def intIsValid (b : Bounds) (s : Str) : Bool :=
-  matchInteger s && (match intCtor b s with | .ok _ => true | .error _ => false)
+  matchInteger (collapse s) && (match intCtor b s with | .ok _ => true | .error _ => false)
 
 /-- proxies.py:81-92 (fix-c10) `DecimalProxy.__new__` on a `str` -/
 def decCtor (s : Str) : Except Err PyDec :=
   let t := collapse s
   if matchDecimal t then .ok (decOfLex t) else .error .value
 
-def decIsValid (s : Str) : Bool := matchDecimal s
+/-- proxies.py `DecimalProxy.validate` on a `str` (fix-c10-2: collapse first) -/
+def decIsValid (s : Str) : Bool := matchDecimal (collapse s)
 
 /-- proxies.py:39-54 (fix-c10) `BooleanProxy.__new__` on a `str`:
 `collapse_white_spaces(value) in BOOLEAN_VALUES`, result `'t' in value or '1' in value` -/
@@ -246,7 +247,7 @@ def boolCtor (s : Str) : Except Err Bool :=
     .ok (s.contains 't' || s.contains '1')
   else .error .value
 
-def boolIsValid (s : Str) : Bool := matchBoolean s
+def boolIsValid (s : Str) : Bool := matchBoolean (collapse s)
 
 /-- result class of a double/float built from a string; the finite value itself is
 `float(<the collapsed literal>)` of CPython — trusted, not modelled -/
@@ -267,10 +268,10 @@ def dblCtor (v : Ver) (s : Str) : Except Err DblClass :=
   else if matchNumericLiteral t then .ok .num
   else .error .value
 
-def dblIsValid (s : Str) : Bool := matchDouble s
+def dblIsValid (s : Str) : Bool := matchDouble (collapse s)
 
-/-- Python `str.strip()` removes Unicode whitespace *including* U+00A0 and the separators 28..31 -/
-def isPyStripWhite (c : Char) : Bool := isPyWhite c || c.toNat == 160
+/-- `value.strip(' \t\n\r')` (fix-c10-2; before the fix `str.strip()` also removed Unicode white space and U+00A0) -/
+def isPyStripWhite (c : Char) : Bool := isPyWhite c
 
 def pyStrip (s : Str) : Str :=
   ((s.dropWhile isPyStripWhite).reverse.dropWhile isPyStripWhite).reverse
@@ -289,8 +290,9 @@ def hexCtor (s : Str) : Except Err Str :=
     if u.all isAscii then .ok u else .error .value
   else .error .value
 
-/-- binary.py:137-150 `Base64Binary.validate` on a `str`: remove spaces, empty is fine, else full match -/
-def b64IsValid (s : Str) : Bool := matchB64 (s.filter (· != ' '))
+/-- binary.py:137-150 `Base64Binary.validate` on a `str` (fix-c10-2: collapse first): remove spaces, empty is
+fine, else full match -/
+def b64IsValid (s : Str) : Bool := matchB64 ((collapse s).filter (· != ' '))
 
 def b64Ctor (s : Str) : Except Err Str :=
   let t := collapse s
@@ -538,11 +540,7 @@ def cast (ver : Ver) (a : Atom) (t : Target) : Except CErr CVal :=
     | .str s | .untyped s =>
       (match dblCtor ver s with | .ok c => .ok (.dbl c) | .error _ => .error .FORG0001)
     | .dbl x _ => .ok (.dbl (match x with | .nan => .nan | .pinf => .pinf | .ninf => .ninf | .fin _ _ _ => .num))
-    | .int v =>
-      -- CPython `float(int)` raises OverflowError (an ArithmeticError -> FOCA0002) when the integer rounds
-      -- to 2^1024 or more
-      if v.natAbs ≥ 2 ^ 1024 - 2 ^ 970 then .error .FOCA0002 else .ok (.dbl .num)
-    | _ => .ok (.dbl .num)
+    | _ => .ok (.dbl .num)    -- integers go through `float(str(v))` (fix-c10-2): INF beyond the range
 
 /-- `E castable as xs:T` -/
 def castable (ver : Ver) (a : Atom) (t : Target) : Bool := (cast ver a t).toBool
@@ -597,5 +595,227 @@ def twoDigits (n : Nat) : Str :=
 def tzCanon (m : Int) : Str :=
   if m == 0 then ['Z']
   else (if m < 0 then '-' else '+') :: (twoDigits (m.natAbs / 60) ++ ':' :: twoDigits (m.natAbs % 60))
+
+end EPV.Lex
+
+/-! ## durations (xs:duration, xs:yearMonthDuration, xs:dayTimeDuration)
+
+datatypes/datetime.py `Duration.pattern`
+`^(-)?P(?=[0-9]|T)(?:([0-9]+)Y)?(?:([0-9]+)M)?(?:([0-9]+)D)?(?:T(?=[0-9])(?:([0-9]+)H)?(?:([0-9]+)M)?(?:([0-9]+(?:\.[0-9]+)?)S)?)?$`,
+`Duration.fromstring` (strip of XML white space — fix-c10-2 —, the match, months and seconds, the checks of
+the derived types — fix-c10-2 —) and `Duration.__init__` (overflow limits, quantisation to microseconds). -/
+namespace EPV.Lex
+
+/-- `(?:([0-9]+)<des>)?` at the head of `s`: the digits and the rest, or nothing consumed -/
+def readItem (des : Char) (s : Str) : Option Str × Str :=
+  let ds := s.takeWhile isDigit
+  match s.dropWhile isDigit with
+  | c :: r => if !ds.isEmpty && c == des then (some ds, r) else (none, s)
+  | [] => (none, s)
+
+/-- a sequence of optional items with the given designators, in order -/
+def readItems : List Char → Str → List (Option Str) × Str
+  | [], s => ([], s)
+  | des :: more, s =>
+    let (v, r) := readItem des s
+    let (vs, r') := readItems more r
+    (v :: vs, r')
+
+/-- `(?:([0-9]+(?:\.[0-9]+)?)S)?` : whole digits and optional fraction digits -/
+def readSec (s : Str) : Option (Str × Option Str) × Str :=
+  let ds := s.takeWhile isDigit
+  if ds.isEmpty then (none, s) else
+  match s.dropWhile isDigit with
+  | 'S' :: r => (some (ds, none), r)
+  | '.' :: f =>
+    let fs := f.takeWhile isDigit
+    (match f.dropWhile isDigit with
+     | 'S' :: r => if fs.isEmpty then (none, s) else (some (ds, some fs), r)
+     | _ => (none, s))
+  | _ => (none, s)
+
+structure DurParts where
+  neg : Bool
+  date : List (Option Str)          -- years, months, days
+  time : List (Option Str)          -- hours, minutes
+  sec : Option (Str × Option Str)   -- whole and fraction digits of the seconds
+deriving DecidableEq, Repr
+
+def startsDigit : Str → Bool
+  | c :: _ => isDigit c
+  | [] => false
+
+/-- the pattern after `^(-)?P`: lookahead, date items, optional time part, end -/
+def durBody (neg : Bool) (b : Str) : Option DurParts :=
+  if !(startsDigit b || b.head? == some 'T') then none else          -- `(?=[0-9]|T)`
+  match readItems ['Y', 'M', 'D'] b with
+  | (dv, []) => some ⟨neg, dv, [none, none], none⟩
+  | (dv, 'T' :: t) =>
+    if !startsDigit t then none else                                  -- `(?=[0-9])`
+    match readItems ['H', 'M'] t with
+    | (tv, r2) =>
+      match readSec r2 with
+      | (sv, r3) => if r3.isEmpty then some ⟨neg, dv, tv, sv⟩ else none
+  | _ => none
+
+/-- the match of `Duration.pattern` on a stripped string: the captured groups -/
+def durParse : Str → Option DurParts
+  | '-' :: 'P' :: b => durBody true b
+  | 'P' :: b => durBody false b
+  | _ => none
+
+def optNat : Option Str → Nat
+  | some ds => digitsVal ds
+  | none => 0
+
+inductive DurKind | duration | yearMonth | dayTime
+deriving DecidableEq, Repr
+
+inductive DErr | value | overflow
+deriving DecidableEq, Repr
+
+/-- `Decimal(seconds).quantize(Decimal('1.000000'))` of a non-negative `num / 10^scale`, in microseconds:
+ROUND_HALF_EVEN (the default of the `decimal` context) -/
+def quantizeMicro (num scale : Nat) : Nat :=
+  if scale ≤ 6 then num * 10 ^ (6 - scale)
+  else
+    let p := 10 ^ (scale - 6)
+    let q := num / p
+    let r := num % p
+    if 2 * r < p then q else if 2 * r > p then q + 1 else (if q % 2 == 0 then q else q + 1)
+
+def secWhole : Option (Str × Option Str) → Str
+  | some (a, _) => a
+  | none => []
+
+def secFrac : Option (Str × Option Str) → Str
+  | some (_, some f) => f
+  | _ => []
+
+/-- `months = int(mo or 0) + 12 * int(y or 0)` -/
+def durMonths (p : DurParts) : Nat := optNat (p.date.getD 1 none) + 12 * optNat (p.date.getD 0 none)
+/-- number of fraction digits of the seconds -/
+def durScale (p : DurParts) : Nat := (secFrac p.sec).length
+/-- the exact seconds `Decimal(s) + 60 mi + 3600 h + 86400 d` as `durSecNum / 10^durScale` -/
+def durSecNum (p : DurParts) : Nat :=
+  digitsVal (secWhole p.sec ++ secFrac p.sec) +
+    (60 * optNat (p.time.getD 1 none) + 3600 * optNat (p.time.getD 0 none) + 86400 * optNat (p.date.getD 2 none)) *
+      10 ^ durScale p
+
+def hasYM (p : DurParts) : Bool := (p.date.getD 0 none).isSome || (p.date.getD 1 none).isSome
+def hasDT (p : DurParts) : Bool :=
+  (p.date.getD 2 none).isSome || (p.time.getD 0 none).isSome || (p.time.getD 1 none).isSome || p.sec.isSome
+
+/-- the checks after the match: derived types (fix-c10-2), `Duration.__init__` limits, quantisation -/
+def durCheck (k : DurKind) (p : DurParts) : Except DErr (Int × Int) :=
+  if k == .dayTime && (durMonths p != 0 || hasYM p) then .error .value
+  else if k == .yearMonth && (durSecNum p != 0 || hasDT p) then .error .value
+  else if durMonths p > 2 ^ 31 then .error .overflow
+  else if durSecNum p > 2 ^ 63 * 10 ^ durScale p then .error .overflow
+  else if p.neg then .ok (-(durMonths p : Int), -(quantizeMicro (durSecNum p) (durScale p) : Int))
+  else .ok ((durMonths p : Int), (quantizeMicro (durSecNum p) (durScale p) : Int))
+
+/-- `Duration.fromstring` + `__init__`: (months, microseconds), both carrying the sign -/
+def durCtor (k : DurKind) (s : Str) : Except DErr (Int × Int) :=
+  match durParse (pyStrip s) with
+  | none => .error .value
+  | some p => durCheck k p
+
+end EPV.Lex
+
+/-! ## xs:time and the year-free gregorian types (xs:gDay, xs:gMonth, xs:gMonthDay)
+
+datatypes/datetime.py: the class patterns (`[0-9]{2}` fields, optional fraction, the `tzinfo` group) and
+`AbstractDateTime.fromstring` + `__init__`: fields through `int()`, fraction cut/padded to microseconds, the
+end-of-day form `24:00:00(.0+)?` (fix-c10-2: only zeros), and the range checks of
+`datetime.datetime(2000, month or 1, day or 1, hour, minute, second, microsecond)`. -/
+namespace EPV.Lex
+
+inductive GKind | gDay | gMonth | gMonthDay | time
+deriving DecidableEq, Repr
+
+/-- fields of the value; absent fields keep the defaults of `__init__` -/
+structure DTVal where
+  month : Nat := 1
+  day : Nat := 1
+  hour : Nat := 0
+  minute : Nat := 0
+  second : Nat := 0
+  micro : Nat := 0
+  tz : Option Int := none
+deriving DecidableEq, Repr
+
+/-- `[0-9]{2}` and its `int()` -/
+def twoVal (a b : Char) : Option Nat := if isDigit a && isDigit b then some (digitsVal [a, b]) else none
+
+/-- the optional `tzinfo` group followed by `$` -/
+def tzOpt : Str → Option (Option Int)
+  | [] => some none
+  | r => (tzParse r).map some
+
+/-- days of the month in the default year 2000 (a leap year) -/
+def daysIn2000 (m : Nat) : Nat := [31, 29, 31, 30, 31, 30, 31, 31, 30, 31, 30, 31].getD (m - 1) 0
+
+/-- `(?:\.([0-9]+))?` : the fraction digits and the rest -/
+def readFraction : Str → Option (Str × Str)
+  | '.' :: rest =>
+    let fs := rest.takeWhile isDigit
+    if fs.isEmpty then none else some (fs, rest.dropWhile isDigit)
+  | r => some ([], r)
+
+/-- `int((fs + '000000')[:6])` -/
+def microOf (fs : Str) : Nat := digitsVal ((fs ++ List.replicate 6 '0').take 6)
+
+/-- xs:gDay `^---(?P<day>[0-9]{2})(?P<tzinfo>…)?$` + `datetime(2000, 1, day)` -/
+def parseGDay : Str → Option DTVal
+  | '-' :: '-' :: '-' :: a :: b :: r =>
+    match twoVal a b, tzOpt r with
+    | some d, some tz => if 1 ≤ d ∧ d ≤ 31 then some { day := d, tz := tz } else none
+    | _, _ => none
+  | _ => none
+
+/-- xs:gMonth `^--(?P<month>[0-9]{2})(?P<tzinfo>…)?$` + `datetime(2000, month, 1)` -/
+def parseGMonth : Str → Option DTVal
+  | '-' :: '-' :: a :: b :: r =>
+    match twoVal a b, tzOpt r with
+    | some m, some tz => if 1 ≤ m ∧ m ≤ 12 then some { month := m, tz := tz } else none
+    | _, _ => none
+  | _ => none
+
+/-- xs:gMonthDay `^--(?P<month>[0-9]{2})-(?P<day>[0-9]{2})(?P<tzinfo>…)?$` + `datetime(2000, month, day)` -/
+def parseGMonthDay : Str → Option DTVal
+  | '-' :: '-' :: a :: b :: '-' :: c :: d :: r =>
+    match twoVal a b, twoVal c d, tzOpt r with
+    | some m, some dd, some tz =>
+      if 1 ≤ m ∧ m ≤ 12 ∧ 1 ≤ dd ∧ dd ≤ daysIn2000 m then some { month := m, day := dd, tz := tz } else none
+    | _, _, _ => none
+  | _ => none
+
+/-- xs:time `^(?P<hour>[0-9]{2}):(?P<minute>[0-9]{2}):(?P<second>[0-9]{2})(?:\.(?P<microsecond>[0-9]+))?(?P<tzinfo>…)?$`
++ the end-of-day rule + `datetime(2000, 1, 1, hour, minute, second, microsecond)` -/
+def parseTime : Str → Option DTVal
+  | a :: b :: ':' :: c :: d :: ':' :: e :: f :: r =>
+    match twoVal a b, twoVal c d, twoVal e f, readFraction r with
+    | some h, some mi, some s, some (fs, r') =>
+      match tzOpt r' with
+      | some tz =>
+        if h == 24 then
+          (if mi == 0 && s == 0 && fs.all (· == '0') then some { tz := tz } else none)
+        else if h ≤ 23 ∧ mi ≤ 59 ∧ s ≤ 59 then
+          some { hour := h, minute := mi, second := s, micro := microOf fs, tz := tz }
+        else none
+      | none => none
+    | _, _, _, _ => none
+  | _ => none
+
+/-- pattern match, field conversion and the range checks, for a string already trimmed -/
+def gParse : GKind → Str → Option DTVal
+  | .gDay => parseGDay
+  | .gMonth => parseGMonth
+  | .gMonthDay => parseGMonthDay
+  | .time => parseTime
+
+/-- `T.fromstring(s)` for the four year-free kinds -/
+def gCtor (k : GKind) (s : Str) : Option DTVal := gParse k (pyStrip s)
 
 end EPV.Lex
